@@ -29,7 +29,7 @@ func genWCase(t *rapid.T, maxLen int, clock bool, faults ...bool) WCase {
 		op := WOp{K: rapid.SampledFrom(kinds).Draw(t, "kind"), Key: rapid.SampledFrom([]int{0, 0, 0, 1}).Draw(t, "key")}
 		switch op.K {
 		case "start":
-			op.Ver = rapid.SampledFrom([]int{0, 0, 0, 0, 1, 2}).Draw(t, "ver")
+			op.Ver = rapid.SampledFrom([]int{0, 0, 0, 0, 0, 0, 1, 2, 4, 5, 6, 7, 8, 9, 10}).Draw(t, "ver")
 			op.Pre = rapid.IntRange(0, 9).Draw(t, "pre") == 0
 			op.Gate = rapid.IntRange(0, 3).Draw(t, "gate") == 0
 		case "cancel", "ungate":
